@@ -82,3 +82,13 @@ MUTANTS["C03"] = [
     ("pre-diff-no-moved", "annet/annlib/diff.py", "    ops = [(order, op) for op, order in ops_order.items()]", "    ops = [(order, op) for op, order in ops_order.items() if op != Op.MOVED]"),
     ("removed-children-flat", "annet/annlib/rulebook/common.py", "            children = call_diff_logic(diff_pre[row][\"subtree\"], old[row], odict(), pops + (Op.REMOVED,))", "            children = call_diff_logic(diff_pre[row][\"subtree\"], old[row], odict(), pops + (Op.REMOVED,))[:3]"),
 ]
+
+MUTANTS["C08"] = [
+    ("sign-of-minus-order", "annet/annlib/patching.py", '            (item["order"] if item["order_direct"] else -item["order"]),\n            item["raw_rule"],', '            (item["order"] if item["order_direct"] else item["order"]),\n            item["raw_rule"],'),
+    # (best-match weight tie-breaks and the recursive child sort are equivalent mutants in the property's domain: disjoint sibling languages; make_patch sorts every sub-tree itself)
+    ("children-ordering-not-handed-down", "annet/annlib/patching.py", '                            rb={"ordering": ordering},  # Нужен только кусок, касающийся правил для ордеринга', '                            rb={"ordering": odict()},'),
+    ("order_config-drops-direct", "annet/annlib/patching.py", '                (item["order"] if item["direct"] else -item["order"]),\n                item["direct"],', '                (item["order"]),\n                item["direct"],'),
+    ("order_config-startswith-letters", "annet/annlib/patching.py", 'cmd_direct = not row.startswith(reverse_prefix + " ")', 'cmd_direct = not row.startswith(reverse_prefix)'),
+    ("sort-drops-duplicate-rows", "annet/annlib/patching.py", '        self.itms.sort(key=operator.attrgetter("sort_key"))', '        self.itms.sort(key=operator.attrgetter("sort_key"))\n        seen = set()\n        self.itms = [i for i in self.itms if not (i.child is None and (i.row, i.sort_key) in seen) and not seen.add((i.row, i.sort_key))]'),
+    ("order_reverse-ignored", "annet/annlib/patching.py", '            elif rule["attrs"]["order_reverse"] and not cmd_direct and direct_matched:', '            elif rule["attrs"]["order_reverse"] and not cmd_direct and direct_matched and False:'),
+]
